@@ -23,7 +23,7 @@ func init() {
 	register(&Rule{ID: "C01.errno", Floor: 40,
 		Text: "avfs's Linux error numbers ARE Linux's: each avfs.LinuxError constant equals the same-meaning constant of package syscall for linux/amd64 (taken from this toolchain's GOROOT), and LinuxError.Is agrees with syscall.Errno.Is for every (errno, fs.ErrPermission | fs.ErrExist | fs.ErrNotExist) pair — both functions are partially evaluated from their source",
 		Run:  c01Errno})
-	register(&Rule{ID: "C01.flags", Floor: 12, Also: []string{"C02", "C03"}, AlsoOnly: map[string][]string{"C03": {"options imply OpenWrite"}}, AlsoFloor: map[string]int{"C03": 1},
+	register(&Rule{ID: "C01.flags", Floor: 12, Also: []string{"C02", "C03", "C16"}, AlsoOnly: map[string][]string{"C03": {"options imply OpenWrite"}, "C16": {"option bits follow their flags"}}, AlsoFloor: map[string]int{"C03": 1, "C16": 1},
 		Text: "the open-flag decoder, evaluated from its source for all 48 combinations of an access mode (O_RDONLY, O_WRONLY, O_RDWR) with O_APPEND/O_CREATE/O_EXCL/O_TRUNC, sets OpenRead / OpenWrite as the access mode says, OpenAppend/OpenCreate/OpenTruncate iff the flag is present, OpenCreateExcl iff O_CREATE|O_EXCL, and never sets OpenTruncate, OpenAppend or OpenCreate without OpenWrite (the permission rules rely on it)",
 		Run:  c01Flags})
 	register(&Rule{ID: "C01.clean", Floor: 20,
